@@ -18,3 +18,16 @@ package event
 //@   pure
 //@   modifies nothing
 //@   flag emits none
+
+// Forwarding: every consumer of the list is handed the event exactly once, in list order, whatever the earlier ones
+// answered.
+//@ func ForwardEvent
+//@   prop C11 C10
+//@   requires eventConsumers != nil
+//@   flag nonblocking
+//@   flag emits opaque+calls
+//@   ensures [every-consumer-once-in-order] count(Call, code("event|IConsumer.ConsumeEvent")) == old(count(Call, code("event|IConsumer.ConsumeEvent"))) + len(*eventConsumers)
+//@   ensures [all-delivered-means-consumed] err == nil ==> result == Consumed
+//@   loop 1 range *eventConsumers
+//@     invariant count(Call, code("event|IConsumer.ConsumeEvent")) == old(count(Call, code("event|IConsumer.ConsumeEvent"))) + rk1
+//@     invariant forall p int :: old(evlen) <= p && p < evlen ==> isCall(ev(p)) || isOpaque(ev(p))
